@@ -2,6 +2,7 @@
 // Contains no encoding knowledge beyond "which constructor is this" (integral sequence => BIN
 // follows from the documented rule in format.md and is decided from std::is_integral).
 #pragma once
+#include <new>
 #include "core.h"
 
 #include <array>
@@ -324,7 +325,10 @@ template <typename T, std::uint64_t Id>
 inline void entry_from_value(const Value& v, nop::Entry<T, Id, nop::ActiveEntry>& e) { if (!v.tag) { e.clear(); return; }
   // engage the entry in place: for T = Optional<U> the assignment `e = t` is the CONVERTING assignment and an empty
   // t would leave the entry itself empty (an engaged entry holding an empty optional is a different value)
-  static_cast<nop::Optional<T>&>(e) = nop::Optional<T>{nop::InPlace{}};
+  // (re-constructed rather than assigned, so that the mirror does not depend on Optional's assignment operators)
+  using E = nop::Entry<T, Id, nop::ActiveEntry>;
+  e.~E();
+  new (&e) E(nop::InPlace{});
   MetaOf<T>::from_value(v.kids[0], e.get());
 }
 template <typename T, std::uint64_t Id>
